@@ -576,3 +576,50 @@ def large(case, ctx):
         exp = src.reshape(src.shape[:-2] + (m2[0] // f, f, m2[1] // f, f)).sum(axis=(-3, -1))
         if rb.shape != exp.shape or np.max(np.abs(rb - exp)) > 1e-10 * f * f:
             raise Violation("C20.large.rebin", f"rebin({src.shape}, {f}) differs from block sums")
+
+
+# --- one very long axis (more than 2^16 samples) ----------------------------------------------------------------------
+
+@hyp("C20", "long_axis", lambda tier: st.fixed_dictionaries(
+        {"n": st.integers(65537, 140001), "thin": st.integers(1, 3), "axis": st.integers(0, 1),
+         "pos": st.floats(0.5, 0.999), "len": st.integers(1, 40), "dN": st.integers(-30, 30), "seed": st.integers(0, 2**31 - 1)}),
+     "arrays with one axis of 65537..140001 samples: centroid, bounding slice, slice offset, subarray and pad of a blob "
+     "that lies beyond index 65535", examples=(12, 60), budget_s=(100, 500))
+def long_axis(case, ctx):
+    n, t = case["n"], case["thin"]
+    rng = np.random.default_rng(case["seed"])
+    start = min(int(case["pos"] * n), n - case["len"] - 1)
+    start = max(start, 65536)
+    L = min(case["len"], n - start)
+    img = np.zeros((t, n))
+    img[:, start:start + L] = rng.uniform(0.5, 1.5, size=(t, L))
+    shape = (t, n)
+    if case["axis"] == 0:
+        img, shape = np.ascontiguousarray(img.T), (n, t)
+    ctx.tag(f"axis:{case['axis']}", "beyond_2^16", "beyond_2^17" if start >= 131072 else None)
+    ctx.nontrivial_if(True)
+    with lentil_call("C20.long", f"centroid / boundary_slice / slice_offset / subarray / pad on a {shape} array"):
+        cr, cc = lentil.centroid(img)
+        sl = lhelper.boundary_slice(img)
+        off = lhelper.slice_offset(sl, shape)
+        bshape = (sl[0].stop - sl[0].start, sl[1].stop - sl[1].start)
+        sub = lentil.subarray(img, bshape, tuple(int(v) for v in off))
+        N = (shape[0] + (case["dN"] if case["axis"] == 0 else 0), shape[1] + (case["dN"] if case["axis"] == 1 else 0))
+        padded = lentil.pad(img, N)
+    ii = np.arange(shape[0])[:, None]
+    jj = np.arange(shape[1])[None, :]
+    er, ec = float((ii * img).sum() / img.sum()), float((jj * img).sum() / img.sum())
+    if abs(cr - er) > 1e-6 or abs(cc - ec) > 1e-6:
+        raise Violation("C20.long.centroid", f"centroid {(cr, cc)} of a blob at index {start}..{start + L - 1} of a {shape} "
+                                             f"array, first moments give {(er, ec)}")
+    rows, cols = np.flatnonzero(img.any(axis=1)), np.flatnonzero(img.any(axis=0))
+    want = (int(rows[0]), int(rows[-1]) + 1, int(cols[0]), int(cols[-1]) + 1)
+    if (sl[0].start, sl[0].stop, sl[1].start, sl[1].stop) != want:
+        raise Violation("C20.long.boundary_slice", f"bounding slice {sl} != {want}")
+    want_off = (want[0] + (want[1] - want[0]) // 2 - shape[0] // 2, want[2] + (want[3] - want[2]) // 2 - shape[1] // 2)
+    if tuple(int(v) for v in off) != want_off:
+        raise Violation("C20.long.slice_offset", f"slice_offset {tuple(off)} != {want_off}")
+    if not np.array_equal(sub, img[want[0]:want[1], want[2]:want[3]]):
+        raise Violation("C20.long.subarray", "subarray(bounding box shape, shift=slice_offset) is not the bounding box content")
+    if not np.array_equal(padded, _ref_pad_fast(img, N)):
+        raise Violation("C20.long.pad", f"pad({shape} -> {N}) does not keep sample floor(n/2) at floor(N/2)")
